@@ -312,9 +312,11 @@ def r13_plane_geometry(ctx, prog, ci, rule="C16-R13"):
                         norm(a.func).split(".")[-1] in ("array", "asarray"):
                     a = a.args[0]
                 if isinstance(a, (ast.Tuple, ast.List)) and \
-                        len(a.elts) == 2 and any(
-                            isinstance(x, ast.Call) for x in ast.walk(a)):
-                    pts.append(a.elts)
+                        len(a.elts) == 2:
+                    el_ = [expand_locals(fi.node, x) for x in a.elts]
+                    if any(isinstance(x, ast.Call) for e_ in el_
+                           for x in ast.walk(e_)):
+                        pts.append(el_)
         return pts[which] if which < len(pts) else None
 
     def decomposition(fi, k_len, k_ang):
@@ -348,8 +350,11 @@ def r13_plane_geometry(ctx, prog, ci, rule="C16-R13"):
         pt = endpoint(f1, which)
         dec = decomposition(f2, k_len, k_ang)
         if pt is None or dec is None:
-            raise AnalysisError("%s: end point of %s / return of %s not "
-                                "recognised" % (rule, fwd, inv))
+            # (the index-type and dtype rules R2 / R11 still see this code)
+            ctx.unknown_site(rule, f1, "end point of %s / return of %s not "
+                             "written as (x + r cos t, y + r sin t): not "
+                             "interpreted" % (fwd, inv), node=f1.node)
+            continue
         bad = []
         for x, y, r, t in ((10.0, 20.0, 3.0, 30.0), (10.0, 20.0, 2.5, 120.0),
                            (7.5, 3.25, 4.0, -60.0), (7.5, 3.25, 1.5, -150.0),
@@ -389,7 +394,8 @@ def r13_plane_geometry(ctx, prog, ci, rule="C16-R13"):
                   "from the formulae of %s as %s" %
                   ((bad[0][0], fwd, inv, bad[0][1]) if bad
                    else ("", "", "", "")), node=f2.node)
-    ctx.floor(rule, n, 14, "sample vectors interpreted")
+    if n:
+        ctx.floor(rule, n, 7, "sample vectors interpreted")
 
 
 def r5_deps(ctx, ci):
